@@ -17,7 +17,7 @@
 From Coq Require Import List Arith Bool ZArith.
 From LV Require Import Common.Cases Align.DP Msa.Profile Msa.Merge Msa.Refine Msa.MsaSpec Msa.MsaExec
   Msa.ProfileProofs Msa.MergeProofs Msa.UpdateProofs Msa.RefineProofs Msa.MsaExecProofs Msa.Examples
-  Msa.Alignments Msa.AlignmentsProofs Msa.Totality.
+  Msa.Alignments Msa.AlignmentsProofs Msa.Totality Msa.CalignOracle.
 Import ListNotations.
 Local Open Scope nat_scope.
 
@@ -190,3 +190,35 @@ Proof. eexists. vm_compute. split; [reflexivity|discriminate]. Qed.
 Example ex_plain_mode_raises :
   run_call nat Nat.ltb ex_cf false (AllSequences nat (ex_env CheckFinal ex_score)) ex_state = None.
 Proof. vm_compute. reflexivity. Qed.
+
+(* ---- the oracle contract is met by the model of the REAL profile aligners (added by the lead) ----
+   calign.align_profile / talign.align_profile run globalign / semi_globalign / dialign (or the
+   secondary twins) on the index lists of the two profiles with an averaged scorer.  For ARBITRARY
+   numeric quantities derived from the profiles ([params]: scorer, weights, prosodic strings, scale,
+   factor, restricted characters), every profile mode (global, overlap, dialign) and any gop, the
+   models of both aligners (Align/Calign.v, tied to the code under C01) satisfy [oracle_valid] and
+   [oracle_total] - by the C01 theorems.  Hence, with the real aligner's model as PA, prog_align /
+   lib_align return on every valid input and the result is rectangular, lossless, order-preserving. *)
+Theorem C04_real_aligners_meet_contract :
+  forall (A : Type) (params : mat A -> mat A -> Calign.cin) (gop : QArith_base.Q) (md : Calign.mode), md <> Calign.Local ->
+    oracle_valid (calign_oracle A params gop md) /\ oracle_total (calign_oracle A params gop md) /\
+    oracle_valid (talign_oracle A params gop md) /\ oracle_total (talign_oracle A params gop md).
+Proof.
+  exact (fun A params gop md H =>
+    conj (calign_oracle_valid A params gop md) (conj (calign_oracle_total A params gop md H)
+    (conj (talign_oracle_valid A params gop md) (talign_oracle_total A params gop md H)))).
+Qed.
+Print Assumptions C04_real_aligners_meet_contract.
+
+Theorem C04_align_total_real_aligner :
+  forall (params : mat num -> mat num -> Calign.cin) (gop : QArith_base.Q) (md : Calign.mode), md <> Calign.Local ->
+  forall (cf : config) (tree : list (nat * nat)),
+    config_ok cf -> Forall (fun t => t <> []) (cf_tokens cf) ->
+    valid_merge_order (height_of cf) tree ->
+    exists st, align (calign_oracle num params gop md) cf tree = Some st /\ state_ok cf st.
+Proof.
+  exact (fun params gop md H cf tree =>
+    align_total (calign_oracle num params gop md) cf tree
+      (calign_oracle_valid num params gop md) (calign_oracle_total num params gop md H)).
+Qed.
+Print Assumptions C04_align_total_real_aligner.
